@@ -226,3 +226,56 @@ template <class M> inline bool mat_bits_equal(const M &a, const M &b) {
 }
 
 } // namespace vf
+
+namespace vf {
+// ----- generic dense solve (scaled partial pivoting), long double; A is n x (n + nrhs), solved in place -----
+inline bool dense_solve_ld(std::vector<std::vector<LD>> &A, int n, int nrhs, std::vector<std::vector<LD>> &X) {
+  for (int i = 0; i < n; ++i) { LD mx = 0; for (int j = 0; j < n; ++j) mx = std::max(mx, fabsl(A[i][j])); if (mx > 0) for (int j = 0; j < n + nrhs; ++j) A[i][j] /= mx; }
+  for (int c = 0; c < n; ++c) {
+    int piv = c; LD best = 0;
+    for (int i = c; i < n; ++i) if (fabsl(A[i][c]) > best) { best = fabsl(A[i][c]); piv = i; }
+    if (best == 0) return false;
+    std::swap(A[c], A[piv]); LD inv = 1 / A[c][c];
+    for (int i = c + 1; i < n; ++i) { LD f = A[i][c] * inv; if (f == 0) continue; for (int j = c; j < n + nrhs; ++j) A[i][j] -= f * A[c][j]; }
+  }
+  X.assign(n, std::vector<LD>(nrhs));
+  for (int i = n - 1; i >= 0; --i) for (int r = 0; r < nrhs; ++r) { LD v = A[i][n + r]; for (int j = i + 1; j < n; ++j) v -= A[i][j] * X[j][r]; X[i][r] = v / A[i][i]; }
+  return true;
+}
+
+// ----- R1': the same spline obtained as the solution of the optimisation problem (not its optimality
+// conditions): minimise sum_i int_0^{T_i} (p_i^{(s)})^2 over piecewise polynomials of degree 2s-1 that are only
+// required to be C^{s-1}, subject to interpolation and boundary states; dense KKT solve in long double. -----
+inline RefSpline<LD> kkt_solve(int s, const std::vector<LD> &T, const std::vector<std::vector<LD>> &P,
+                               const std::vector<std::vector<LD>> &bs, const std::vector<std::vector<LD>> &be) {
+  int N = (int)T.size(), D = (int)P[0].size(), m = 2 * s, nc = m * N;
+  // constraints
+  std::vector<std::vector<LD>> Ac; std::vector<std::vector<LD>> bc;
+  auto newrow = [&]() { Ac.push_back(std::vector<LD>(nc, 0)); bc.push_back(std::vector<LD>(D, 0)); return (int)Ac.size() - 1; };
+  auto rowDeriv = [&](int row, int seg, LD t, int k, LD sign) { for (int j = k; j < m; ++j) { LD p = 1; for (int q = 0; q < j - k; ++q) p *= t; Ac[row][seg * m + j] += sign * fallfac(j, k) * p; } };
+  for (int k = 0; k < s; ++k) { int r = newrow(); rowDeriv(r, 0, 0, k, 1); for (int d = 0; d < D; ++d) bc[r][d] = k == 0 ? P[0][d] : bs[k - 1][d]; }
+  for (int i = 1; i < N; ++i) {
+    int r = newrow(); rowDeriv(r, i - 1, T[i - 1], 0, 1); for (int d = 0; d < D; ++d) bc[r][d] = P[i][d];
+    r = newrow(); rowDeriv(r, i, 0, 0, 1); for (int d = 0; d < D; ++d) bc[r][d] = P[i][d];
+    for (int k = 1; k <= s - 1; ++k) { r = newrow(); rowDeriv(r, i - 1, T[i - 1], k, 1); rowDeriv(r, i, 0, k, -1); }
+  }
+  for (int k = 0; k < s; ++k) { int r = newrow(); rowDeriv(r, N - 1, T[N - 1], k, 1); for (int d = 0; d < D; ++d) bc[r][d] = k == 0 ? P[N][d] : be[k - 1][d]; }
+  int ncon = (int)Ac.size(), n = nc + ncon;
+  std::vector<std::vector<LD>> K(n, std::vector<LD>(n + D, 0));
+  for (int i = 0; i < N; ++i) {
+    // Gram matrix of the s-th derivative on [0,T_i]
+    for (int a = s; a < m; ++a) for (int b = s; b < m; ++b) {
+      LD pw = 1; for (int q = 0; q < a + b - 2 * s + 1; ++q) pw *= T[i];
+      K[i * m + a][i * m + b] = 2 * fallfac(a, s) * fallfac(b, s) * pw / (LD)(a + b - 2 * s + 1);
+    }
+  }
+  for (int r = 0; r < ncon; ++r) for (int j = 0; j < nc; ++j) { K[nc + r][j] = Ac[r][j]; K[j][nc + r] = Ac[r][j]; }
+  for (int r = 0; r < ncon; ++r) for (int d = 0; d < D; ++d) K[nc + r][n + d] = bc[r][d];
+  std::vector<std::vector<LD>> X;
+  RefSpline<LD> R; R.s = s; R.N = N; R.D = D; R.T = T;
+  if (!dense_solve_ld(K, n, D, X)) { R.N = -1; return R; }
+  R.C.assign(nc, std::vector<LD>(D));
+  for (int i = 0; i < nc; ++i) R.C[i] = X[i];
+  return R;
+}
+} // namespace vf
